@@ -253,9 +253,30 @@ fn overwrite_then_remove_a_committed_key() {
     for k_ in [&k0, &k1] {
         w.app.execute_contract(user.clone(), k_.clone(), &Script::new().write("slot", "v0").write("other", "o"), &[]).unwrap();
     }
-    let one_call = choose(2) == 1;
+    let shape = choose(4);
+    let one_call = shape == 1;
     sc::trace_clear();
-    let r = if one_call {
+    let r = if shape >= 2 {
+        // changed (set to another value, or removed) and then written BACK to the committed value
+        // (seed C08j): the last write wins, every view shows v0
+        let first = if shape == 2 { Script::new().write("slot", "busy") } else { Script::new().then(Step::Remove { key: "slot".into() }) };
+        let sc_ = first.write("slot", "v0").then(Step::RangeOwn { tag: "own".into() });
+        let r_ = w.app.execute_contract(user.clone(), k0.clone(), &sc_, &[]).map(|_| ());
+        check_native("write_succeeds", r_.is_ok(), || format!("{:?}", r_.as_ref().err().map(|e| e.to_string())));
+        let trace = sc::trace_take();
+        let want = vec![(b"other".to_vec(), b"o".to_vec()), (b"slot".to_vec(), b"v0".to_vec())];
+        let own = trace.iter().flat_map(|e| e.obs.iter()).find_map(|(t, o)| match (t.as_str(), o) {
+            ("own", Obs::Range(r)) => Some(r.clone()),
+            _ => None,
+        });
+        check_native("contract_reads_back_exactly_what_it_wrote", own.as_ref() == Some(&want), || format!("{:?}", own));
+        let dump = w.app.dump_wasm_raw(&k0);
+        check_native("state_dump_is_the_same_data", dump == want, || format!("{:?}", dump));
+        let raw = w.app.wrap().query_wasm_raw(k0.to_string(), b"slot".to_vec()).unwrap();
+        check_native("raw_query_is_the_same_data", raw.as_deref() == Some(&b"v0"[..]), || format!("{:?}", raw));
+        witness("end_overwrite_remove");
+        return;
+    } else if one_call {
         w.app
             .execute_contract(user.clone(), k0.clone(), &Script::new().write("slot", "v1").then(Step::Remove { key: "slot".into() }).then(Step::RangeOwn { tag: "own".into() }), &[])
             .map(|_| ())
